@@ -1050,7 +1050,11 @@ func (o *CompiledFunction) UnmarshalBinary(data []byte) error {
 			if err != nil {
 				return err
 			}
-			o.Instructions = obj.(ugo.Bytes)
+			insts, ok := obj.(ugo.Bytes)
+			if !ok {
+				return errors.New("invalid instructions")
+			}
+			o.Instructions = insts
 		case 3:
 			o.Variadic = true
 		case 4:
